@@ -801,7 +801,11 @@ def c16(tier):
     for module, cfg in scen:
         for mode in modes:
             big = any(k in cfg for k in ("insert", "split"))   # the two largest instances: every 2nd / 3rd transition
+            # (an exact removal leaves a rounding-size error in floats: whether a tolerance of 0 or 1e-30 accepts it is
+            # no claim of the property; those transitions are replayed with exact numbers only)
+            tiny_tol = lambda t: t["act"].get("tol", ["default"])[0] == "e" or t["act"].get("tol") == ["q", 0, 1]
             model_replay_cached("C16", tier, ev, rep, module, cfg, mode, cache,
+                                filt=None if mode in ("int", "fraction") else (lambda t: not tiny_tol(t)),
                                 stride=1 if tier != "quick" else (3 if mode == "numpy.float64" else 2) if big else
                                 (2 if mode == "numpy.float64" else 1))
     # a minimal user-defined point type (point + point, scalar * point only): evaluation, insertion, elevation, splitting
